@@ -187,6 +187,10 @@ def quant_sub(chk, rng, w, wid, mode, plan=None, tvar=None, ops=OPS):
         wit = dict(info=info, obs=obs, steps=steps)
         if plan is not None:
             wit["declarations"] = plan
+        if r.get("k") == "E" and r["cls"] == "ZeroDivisionError" and \
+                (st.get("b") == 0 or op == "div"):
+            chk.count("division by a zero amount (control, not judged)")
+            return
         if r.get("k") != "Q":
             chk.violation("%s under %s: no quantity returned: %s" %
                           (op, mode, brief(r)), wit, "op-raises")
